@@ -4,20 +4,23 @@
 EXTENDS SluStack, Json, IOUtils
 Tr == ndJsonDeserialize(IOEnv.TRACE)
 RegInit == TLCSet(1, 0)
-VARIABLE l
-tvars == <<svars, l>>
+VARIABLE l, ctx     \* ctx: what the caller asked the factorization in progress for (0 first factorization, 1 re-factorization; -1 before any)
+tvars == <<svars, l, ctx>>
 E == Tr[l]
 Ev(name) == l <= Len(Tr) /\ E.e = name /\ l' = l + 1
 \* the logged state after the step is the state the specification computes
 After(k) == size' = E.a[k] /\ used' = E.a[k + 1] /\ top1' = E.a[k + 2] /\ top2' = E.a[k + 3]
-TSetup  == Ev("StkInit") /\ E.a[1] = 0 /\ Setup(E.a[2]) /\ After(2)
-TReuse  == Ev("StkInit") /\ E.a[1] = 1 /\ Reuse(E.a[2]) /\ After(2)
-TAlloc  == Ev("StkAlloc") /\ Alloc(E.a[1], E.a[2], E.a[3] = 1) /\ After(4)
-TFree   == Ev("StkFree") /\ Free(E.a[1], E.a[2]) /\ After(3)
-TUsers  == Ev("StkUsers") /\ Users(E.a[1]) /\ users' = E.a[2] /\ After(3)
-TAdjust == Ev("StkAdjust") /\ Adjust(E.a[1], E.a[2]) /\ After(3)
-TInit == RegInit /\ SInit /\ l = 1
-TNext == TSetup \/ TReuse \/ TAlloc \/ TFree \/ TUsers \/ TAdjust
+\* a re-factorization keeps the factors at the head of the workspace: setting the workspace up afresh inside it forgets them (used = 0)
+\* and the tail requests of the workers are no longer refused when they reach the factors
+TCtx    == Ev("StkCtx") /\ ctx' = E.a[1] /\ UNCHANGED svars
+TSetup  == Ev("StkInit") /\ E.a[1] = 0 /\ ctx = 0 /\ Setup(E.a[2]) /\ After(2) /\ UNCHANGED ctx
+TReuse  == Ev("StkInit") /\ E.a[1] = 1 /\ ctx = 1 /\ Reuse(E.a[2]) /\ After(2) /\ UNCHANGED ctx
+TAlloc  == Ev("StkAlloc") /\ Alloc(E.a[1], E.a[2], E.a[3] = 1) /\ After(4) /\ UNCHANGED ctx
+TFree   == Ev("StkFree") /\ Free(E.a[1], E.a[2]) /\ After(3) /\ UNCHANGED ctx
+TUsers  == Ev("StkUsers") /\ Users(E.a[1]) /\ users' = E.a[2] /\ After(3) /\ UNCHANGED ctx
+TAdjust == Ev("StkAdjust") /\ Adjust(E.a[1], E.a[2]) /\ After(3) /\ UNCHANGED ctx
+TInit == RegInit /\ SInit /\ l = 1 /\ ctx = 0 - 1
+TNext == TCtx \/ TSetup \/ TReuse \/ TAlloc \/ TFree \/ TUsers \/ TAdjust
 TSpec == TInit /\ [][TNext]_tvars
 Progress == TLCSet(1, IF TLCGet(1) > l THEN TLCGet(1) ELSE l)
 Accepted == IF TLCGet(1) > Len(Tr) THEN TRUE
